@@ -553,6 +553,9 @@ func (p *Profile) compatible(pb *Profile) error {
 // equalValueType returns true if the two value types are semantically
 // equal. It ignores the internal fields used during encode/decode.
 func equalValueType(st1, st2 *ValueType) bool {
+	if st1 == nil || st2 == nil {
+		return st1 == st2
+	}
 	return st1.Type == st2.Type && st1.Unit == st2.Unit
 }
 
